@@ -291,6 +291,71 @@ def kind_change_body(c):
     return ok(nontrivial=True, key=json.dumps([how, list(shape), tiny]), labels=["kind_change", "how=" + how], sample=sample)
 
 
+def complex_dtype_body(c):
+    """Complex arguments whose complexness is carried by the DTYPE only: complex128 data with exactly zero imaginary parts, and
+    single-precision complex (complex64) data.  The gradient of a real loss is complex (of the argument's dtype kind) and pairs with every
+    complex direction like the closed-form derivative."""
+    import autograd
+    import autograd.numpy as anp
+
+    from ..case import describe_exc, from_autograd
+
+    how = c.choice(["eig_zero_imag", "fft_c64", "ifft_c64", "fft2_c64", "matmul_c64", "exp_c64", "eig_c128_generic", "sum_sq_zero_imag"])
+    vseed = c.seed()
+    n = c.int(2, 3)
+    (M, Wr, Wi), _ = values.generic(vseed, [(n, n), (n, n), (n, n)], -1.0, 1.0)
+    cw = Wr + 1j * Wi
+    if how in ("eig_zero_imag", "eig_c128_generic"):
+        z0 = (M * 0.5 + 1.5 * onp.diag(onp.arange(1, n + 1))) + (0j if how == "eig_zero_imag" else 0.3j * Wi)
+        f = lambda z: anp.real((1.0 + 2.0j) * anp.sum(anp.linalg.eig(z)[0] ** 2))
+        dfun = lambda z, v: float(onp.real((1.0 + 2.0j) * 2.0 * onp.trace(z @ v)))
+        tol = 1e-9
+    elif how == "sum_sq_zero_imag":
+        z0 = M + 0j
+        f = lambda z: anp.real(anp.sum(z * z * cw))
+        dfun = lambda z, v: float(onp.real(onp.sum(2.0 * z * v * cw)))
+        tol = 1e-12
+    else:
+        z0 = (M + 1j * Wi).astype(onp.complex64)
+        cw = cw.astype(onp.complex64)
+        tol = 2e-5
+        if how == "fft_c64":
+            f = lambda z: anp.real(anp.sum(anp.fft.fft(z) * cw))
+            dfun = lambda z, v: float(onp.real(onp.sum(onp.fft.fft(v) * cw)))
+        elif how == "ifft_c64":
+            f = lambda z: anp.real(anp.sum(anp.fft.ifft(z, axis=0) * cw))
+            dfun = lambda z, v: float(onp.real(onp.sum(onp.fft.ifft(v, axis=0) * cw)))
+        elif how == "fft2_c64":
+            f = lambda z: anp.real(anp.sum(anp.fft.fft2(z) * cw))
+            dfun = lambda z, v: float(onp.real(onp.sum(onp.fft.fft2(v) * cw)))
+        elif how == "matmul_c64":
+            f = lambda z: anp.real(anp.sum(anp.matmul(z, z) * cw))
+            dfun = lambda z, v: float(onp.real(onp.sum((z @ v + v @ z) * cw)))
+        else:
+            f = lambda z: anp.real(anp.sum(anp.exp(z) * cw))
+            dfun = lambda z, v: float(onp.real(onp.sum(onp.exp(z) * v * cw)))
+    sample = {"how": how, "n": n, "vseed": vseed, "dtype": str(z0.dtype)}
+    c.features.update(how=how)
+    bucket = lambda k: f"C09|complex_dtype|{how}|{k}"
+    try:
+        r = onp.asarray(autograd.grad(f)(z0))
+    except Exception as e:
+        if not from_autograd(e):
+            raise
+        return raised(e, "complex_dtype", sample=sample)
+    if r.dtype.kind != "c":
+        return fail("wrong_kind", f"{how}: the gradient with respect to a {z0.dtype} argument is {r.dtype}", bucket("kind"), sample=sample)
+    if r.shape != z0.shape:
+        return fail("wrong_shape", f"{how}: gradient shape {r.shape}", bucket("shape"), sample=sample)
+    for k_ in range(2):
+        v = onp.asarray(values.cdirection(vseed, z0.shape, 5 + k_)) * (1j if k_ else 1.0)
+        want = dfun(z0.astype(onp.complex128), v)
+        got = float(onp.real(onp.sum(r.astype(onp.complex128) * v)))  # autograd's convention: df(v) = Re sum(grad * v)
+        if abs(got - want) > tol * max(1.0, abs(want)):
+            return fail("wrong_value", f"{how}: the gradient pairs with a complex direction to {got!r}, the closed form gives {want!r}", bucket("pairing"), sample=sample)
+    return ok(nontrivial=True, key=json.dumps([how, n]), labels=["complex_dtype", "how=" + how], sample=sample)
+
+
 def tests():
     out = []
     from ..templates.core import complex_capable
@@ -305,6 +370,7 @@ def tests():
     out.append(Test("real_loss", realloss_body, quick=300, thorough=3000, shard_size=150))
     out.append(Test("roundtrip", roundtrip_body, quick=300, thorough=3000, shard_size=150))
     out.append(Test("kind_change", kind_change_body, quick=300, thorough=2000, shard_size=150))
+    out.append(Test("complex_dtype", complex_dtype_body, quick=400, thorough=3000, shard_size=100))
     return out
 
 
